@@ -379,6 +379,8 @@ def scenarios(draw, prof: dict | None = None):
         sc["gsc_reads_best"] = draw(st.sampled_from([False, False, True]))
         sc["observe_every"] = draw(st.sampled_from([1, 1, 2, 3]))
         sc["observe_offset"] = draw(st.integers(0, 2))
+    # one run in five goes through the one-call entry point pyhms.hms.hms(levels, gsc, sprout, options) (whole runs only)
+    sc["entry"] = draw(st.sampled_from(["tree", "tree", "tree", "tree", "hms"]))
     if prof.get("allow_cache"):
         # FunctionProblem(use_cache=True): a genome seen before is answered from the cache (opt-in feature of pyhms)
         sc["use_cache"] = draw(st.sampled_from([False, False, True]))
